@@ -252,7 +252,7 @@ def check_C20(ctx):
 
 # ------------------------------------------------------------------------------------------ C05
 C05_FILES = ["system/Values.tla", "system/MC_Values.tla", "system/Sim_Values.tla",
-             "system/Cover_Values_tx.cfg", "system/Cover_Values_st.cfg", "system/Sim_Values.cfg"]
+             "system/Cover_Values_tx.cfg", "system/Cover_Values_st.cfg", "system/Cover_Values_tmp.cfg", "system/Sim_Values.cfg"]
 C05_SIM_DEPTH = 120
 
 
@@ -281,10 +281,10 @@ def check_C05(ctx):
         return lambda: ctx.tlc(C05_FILES, "Sim_Values", "Sim_Values.cfg", simulate=per, depth=C05_SIM_DEPTH + 1,
                                tag="sim%d" % k, timeout=2400, count=False, extra=["-aril", str(1000 * ctx.seed + k)])
 
-    covers = ["tx", "st"]
+    covers = ["tx", "st", "tmp"]
     jobs = [(lambda nm=nm, i=i: _c05_cover_behaviours(ctx, nm, 100000 * (i + 1))) for i, nm in enumerate(covers)]
     jobs += [sim_job(k) for k in range(chunks)]
-    results = _parallel(jobs, width=6)
+    results = _parallel(jobs, width=max(2, min(6, ctx.cores // 2)))
     cres, sims = results[:len(covers)], results[len(covers):]
 
     def classify(f):
@@ -322,7 +322,7 @@ def check_C05(ctx):
             ops[st["op"]] = ops.get(st["op"], 0) + 1
             triples.add(("sim", json.dumps(lab, sort_keys=True), json.dumps(st.get("obs"), sort_keys=True)))
     need = {"newO", "newI", "assignO", "idO", "argMutO", "readI", "writeI", "appendA", "popA", "delD", "setP", "setX", "push",
-            "save", "load", "copySt", "refO", "borrow", "refI", "commit", "abort"}
+            "save", "load", "copySt", "refO", "borrow", "refI", "tempMut", "commit", "abort"}
     if need - set(ops):
         raise Infra("simulated histories never exercised: %s" % sorted(need - set(ops)))
     via_ref = sum(1 for b in sim_behs for st in b["steps"] if st.get("root") in ("r", "q") and st["op"] in ("setP", "setX", "push", "writeI", "appendA", "delD"))
@@ -337,11 +337,13 @@ def check_C05(ctx):
         "transactions_executed": (s1["transactions"] + s2["transactions"]) * s1["engines"] * s1["refinements"],
         "evaluations": (s1["steps"] + s2["steps"]) * s1["engines"] * s1["refinements"],
         "distinct_nontrivial": len(triples),
-        "rule": "distinct (abstract state, step) pairs of the two bounded configurations plus distinct (step, predicted deep observation) pairs of the simulated histories; after each of them every variable, both references and every storage path are compared deeply",
+        "rule": "distinct (abstract state, step) pairs of the three bounded configurations plus distinct (step, predicted deep observation) pairs of the simulated histories; after each of them every variable, both references and every storage path are compared deeply",
         "exhaustive": True,
-        "exhaustive_scope": "the two bounded configurations are enumerated completely and every one of their transitions is replayed; the simulated histories are samples",
+        "exhaustive_scope": "the three bounded configurations are enumerated completely and every one of their transitions is replayed; the simulated histories are samples",
         "cover_behaviours": len(cover_behs), "simulated_histories": len(sim_behs),
         "mutations_through_references_in_simulation": via_ref,
+        "mutations_of_unbound_temporaries": {"cover": sum(1 for b in cover_behs for st in b["steps"] if st["op"] == "tempMut"),
+                                             "simulation": ops.get("tempMut", 0)},
         "operations_in_simulation": ops,
     }, assumptions=["host = repo's TestRuntimeInterface/TestLedger (harness/host), atree validation on",
                     "value universe: struct Outer {p, i: Inner, a: [Inner], d: {String: Inner}}, struct Inner {x, xs: [payload]}; payload as Int or as 300-byte String",
@@ -449,7 +451,7 @@ META = {
         "engine": "E2 replay",
     },
     "C05": {
-        "level_text": "Exhaustive TLC exploration of two bounded configurations of Values.tla (a heap of struct / array / dictionary nodes with explicit deep copies; 2 Outer + 1 Inner variable, 2 steps per transaction; and 1 variable + 1 storage path over 2 transactions) with the invariants NoSharing (no two roots reach a common node, every node has one parent), NoGarbage, RefsAreLive, Shapes and the action property that a mutation changes the value of at most one root; every transition of those graphs and simulated 120-step histories (3 Outer + 2 Inner variables, 2 storage paths, references to variables, to nested members and to stored values, nesting struct > array/dictionary > struct > array) are replayed on the real runtime under interpreter and VM with 8-byte and 300-byte payloads; after every step the deep value of every variable, of what both references show and of every storage path is compared with the model, and after every transaction the stored values are re-read from the ledger.",
+        "level_text": "Exhaustive TLC exploration of three bounded configurations of Values.tla (a heap of struct / array / dictionary nodes with explicit deep copies; 2 Outer + 1 Inner variable, 2 steps per transaction; and 1 variable + 1 storage path over 2 transactions; and the same with mutations of unbound temporaries -- storage copy, returned values, getter results, dereferences -- directly and through a reference to the temporary, at depth 1-3) with the invariants NoSharing (no two roots reach a common node, every node has one parent), NoGarbage, RefsAreLive, Shapes and the action property that a mutation changes the value of at most one root; every transition of those graphs and simulated 120-step histories (3 Outer + 2 Inner variables, 2 storage paths, references to variables, to nested members and to stored values, nesting struct > array/dictionary > struct > array) are replayed on the real runtime under interpreter and VM with 8-byte and 300-byte payloads; after every step the deep value of every variable, of what both references show and of every storage path is compared with the model, and after every transaction the stored values are re-read from the ledger.",
         "level_note": "Trusted: TLC, the Go renderer, the repo's test ledger as host. Bounded: array lengths <= 3, two dictionary keys; dangling references are not exercised.",
         "technique": "TLA+ spec (Values.tla) model-checked with TLC; spec behaviours (transition cover + simulation) replayed into the real runtime and compared step by step",
         "design_ref": "DESIGN.md section 5 C05",
